@@ -228,6 +228,59 @@ def rule_isel(b):
                              " | ".join(repr(c) for c in (bad[0][5] if len(bad[0]) > 5 else []))[:300]), f["sp"]["file"], f["sp"]["line"])
             else:
                 res.inst(ikey, f["sp"]["file"], f["sp"]["line"], "ok", "%d placements" % n)
+        # add(temp, temp, tag): the dispatch of Switch (target coincides with the first source, both the scratch temporary)
+        cfg_prefix = "<%s::Backend as axcut2backend::config::Config<" % tg.crate
+        tk = [k for k in ctx.fx.fns if k.startswith(cfg_prefix) and k.endswith(">::temp")]
+        rk = [k for k in ctx.fx.fns if k.startswith(cfg_prefix) and k.endswith(">::return1")]
+        if len(tk) != 1 or len(rk) != 1:
+            raise AnalysisError("R-ISEL: Config::temp/return1 of %s not found" % b)
+        temp_t = backend.fold(ctx, tk[0], [])[1][0].result
+        ret1_t = backend.fold(ctx, rk[0], [])[1][0].result
+        key = tg.method("add")
+        f = ctx.fx.fns[key]
+        bad = []
+        for s2 in P:
+            codes = fold_list(key, [temp_t, temp_t, s2], 3)
+            if codes is None:
+                bad.append((s2, ["emission could not be folded"]))
+                continue
+            m, init = _init_machine(arch, {tg.loc_of(x) for x in P} | {tg.loc_of(temp_t)})
+            isa.run(ctx, arch, codes, m)
+            pr = list(m.errors)
+            got = _read_loc(m, tg.loc_of(temp_t))
+            if got != isa.norm(("add", init[tg.loc_of(temp_t)], init[tg.loc_of(s2)])):
+                pr.append("scratch holds %s, expected table address + tag" % isa.show(got))
+            for loc in {tg.loc_of(x) for x in P}:
+                if _read_loc(m, loc) != init[loc]:
+                    pr.append("%s clobbered" % (loc[1],))
+            if pr:
+                bad.append((s2, pr))
+        if bad:
+            res.inst(b + ":add(temp,temp,tag)", f["sp"]["file"], f["sp"]["line"], "violation")
+            res.violate(b + ":add(temp,temp,tag)", "add(TEMP <- TEMP, %s) as used by Switch: %s" % (_p(tg, bad[0][0]), "; ".join(bad[0][1][:3])), f["sp"]["file"], f["sp"]["line"])
+        else:
+            res.inst(b + ":add(temp,temp,tag)", f["sp"]["file"], f["sp"]["line"], "ok", "%d placements of the tag" % len(P))
+        # mov(return1, x): Exit
+        key = tg.method("mov")
+        f = ctx.fx.fns[key]
+        bad = []
+        for s in P:
+            codes = fold_list(key, [ret1_t, s], 2)
+            if codes is None:
+                bad.append((s, ["emission could not be folded"]))
+                continue
+            m, init = _init_machine(arch, {tg.loc_of(x) for x in P})
+            isa.run(ctx, arch, codes, m)
+            pr = list(m.errors)
+            if _read_loc(m, tg.loc_of(ret1_t)) != init[tg.loc_of(s)]:
+                pr.append("return register holds %s" % isa.show(_read_loc(m, tg.loc_of(ret1_t))))
+            if pr:
+                bad.append((s, pr))
+        if bad:
+            res.inst(b + ":mov(return1,x)", f["sp"]["file"], f["sp"]["line"], "violation")
+            res.violate(b + ":mov(return1,x)", "mov(RETURN1 <- %s) as used by Exit: %s" % (_p(tg, bad[0][0]), "; ".join(bad[0][1][:3])), f["sp"]["file"], f["sp"]["line"])
+        else:
+            res.inst(b + ":mov(return1,x)", f["sp"]["file"], f["sp"]["line"], "ok", "%d placements" % len(P))
         # mov
         key = tg.method("mov")
         f = ctx.fx.fns[key]
